@@ -535,3 +535,58 @@ def run(ck, prog):
     _run_pre_negcast(ck, prog)
     from sa import negcast
     negcast.run_rule(ck, prog, set(DIMENSION_FILES))
+
+
+# ------------------------------------------------------------------ transform validates what it looks up
+_run_pre_tvalid = run
+
+
+def transform_validates(ck, prog):
+    """'Transforming a value that was not seen during fitting ... returns an error.' The lookup key is `value.to_category()`,
+    a saturating float-to-u16 cast: 1.5 becomes 1, -7 and NaN become 0, 70000 becomes 65535. Unless the value is validated
+    first (`is_valid()`: it equals its own category code), an unseen value is silently mapped onto a seen category. Rule: in
+    transform and its closures every `to_category()` of a cell of x sits on the true edge of `is_valid()` of the same value."""
+    from sa.prov import Resolver, render
+    rule, inst = "E1-validation", "transform: a value is validated before it is converted to its category code"
+    try:
+        b = prog.one(r"^preprocessing::categorical::OneHotEncoder::transform$")
+    except AnchorError as e:
+        ck.violation(rule, inst, "transform", "", expected="anchor exists", found=f"anchor vanished: {e}")
+        return
+    bodies, stack = [b], list(prog.closures_of.get(b.path, []))
+    while stack:
+        c = stack.pop()
+        bodies.append(c)
+        stack.extend(prog.closures_of.get(c.path, []))
+    n = 0
+    for bd in bodies:
+        rs = Resolver(bd)
+        sw = guards.bool_switches(bd, rs)
+        for bb, t in bd.calls():
+            f = t.get("f")
+            if not (f and f["path"].endswith("Categorizable::to_category") and t["args"]):
+                continue
+            n += 1
+            v = rs.operand(t["args"][0])
+            ok = False
+            for (sb, term, tb, fb) in sw:
+                if term[0] == "call" and term[1].endswith("Categorizable::is_valid") and term[2] and term[2][0] == v:
+                    if bd.dominates(tb, bb) and not bd.dominates(fb, bb):
+                        ok = True
+            if ok:
+                ck.ok(rule, inst, bd.path, bd.where(bb), f"`{render(v)[:60]}`.to_category() under is_valid()")
+            else:
+                ck.violation(rule, inst, bd.path, bd.where(bb), ordinal=n,
+                             expected="to_category() only on the true edge of is_valid() of the same value",
+                             found=f"`{render(v)[:60]}` is cast to its category code without validation: a non-integer, negative, NaN or too "
+                                   f"large value is truncated/saturated onto a category seen in fit instead of being reported")
+    if n == 0:
+        ck.note(f"{inst}: no to_category() call in transform (lookup keyed differently): no instance")
+
+
+def run(ck, prog):
+    _run_pre_tvalid(ck, prog)
+    transform_validates(ck, prog)
+
+
+EXPLANATION += (' transform: every to_category() of a cell sits on the true edge of is_valid() of the same value (found and fixed: unseen non-integer / negative / NaN / too large values were saturated onto seen categories).')
